@@ -1454,7 +1454,7 @@ Theorem C05_gcthread_quit_sent_iff : forall c s a s', GcThread.step c s a = Some
 Proof. exact GcThreadThms.quit_sent_iff. Qed.
 Print Assumptions C05_gcthread_quit_sent_iff.
 
-(* (e) the exact condition under which the quit is seen: the collector is inside `wait` (or notified) at that moment; otherwise it is missed *)
+(* (e) the exact condition under which the quit is seen: the collector is inside `wait` (or notified) at the moment of the quit's `notify_one`; otherwise it is missed *)
 Theorem C05_gcthread_quit_outcome : forall c s s', GcThreadProofs.Inv c s -> GcThread.step c s GcThread.ADropBegin = Some s' ->
   GcThread.g_sig s = GcThread.SRun -> GcThread.g_refs s = 1 ->
   GcThread.g_sig s' = GcThread.SQuit /\ GcThread.usable s' = 0 /\
